@@ -565,6 +565,70 @@ pub fn run(tier: Tier) -> i32 {
             }
         });
     }
+    // the target is a .set variable that captures the position (`.set top = pc`), assigned again by
+    // every expansion of a loop macro: each branch goes back to its own loop top
+    let n_setloop = AtomicU64::new(0);
+    {
+        let mut lw: Vec<(usize, i64, i64)> = vec![];
+        for ki in 0..kinds.len() {
+            for body in [0i64, 1, 5, 40] {
+                for gap in [0i64, 3, 70] {
+                    lw.push((ki, body, gap));
+                }
+            }
+        }
+        lw.par_iter().for_each(|(ki, body, gap)| {
+            let k = &kinds[*ki];
+            let instr = |target: &str| match k.s {
+                Some(s) => format!("{} {}, {}", k.mnem, s, target),
+                None => format!("{} {}", k.mnem, target),
+            };
+            let mut src = format!(".macro loop_m\n.set top_q = pc\n{}{}\n.endm\n", "nop\n".repeat(*body as usize), instr("top_q"));
+            let mut sites = vec![];
+            let mut addr = 0i64;
+            for round in 0..3 {
+                src.push_str("loop_m\n");
+                sites.push(addr + body);
+                addr += body + 1;
+                if round < 2 {
+                    src.push_str(&"nop\n".repeat(*gap as usize));
+                    addr += gap;
+                }
+            }
+            let d = -(body + 1);
+            let o = sut::build_str(&src);
+            evals.fetch_add(1, Ordering::Relaxed);
+            n_setloop.fetch_add(1, Ordering::Relaxed);
+            let kindname = match k.s {
+                Some(_) => format!("{}-s", k.mnem),
+                None => k.mnem.to_string(),
+            };
+            let mut ops = vec![];
+            if let Some(sv) = k.s {
+                ops.push(Opnd::Imm(sv));
+            }
+            ops.push(Opnd::Imm(d));
+            let want = isa::encode(Core::Full, k.mnem, &ops).map(|v| v[0]);
+            let bad: Option<String> = match (&o, want) {
+                (Outcome::Ok(bu), Some(w)) => sites.iter().find_map(|a| {
+                    let off = (*a * 2) as usize;
+                    let got = if bu.code.len() >= off + 2 { bu.code[off] as u16 | (bu.code[off + 1] as u16) << 8 } else { 0 };
+                    if got != w {
+                        Some(format!("the branch at address {} must go back {} words to its own loop top (word {:04x}) but is {:04x} = {:?}", a, -d - 1, w, got, isa::decode(Core::Full, got, None).map(|x| (x.mnem, x.ops))))
+                    } else {
+                        None
+                    }
+                }),
+                (Outcome::Ok(_), None) => Some(format!("displacement {} does not fit but the build succeeds", d)),
+                (Outcome::Err(e), Some(_)) => Some(format!("displacement {} fits but the build fails: {}", d, e)),
+                (Outcome::Err(_), None) => None,
+                (Outcome::Panic { site, msg }, _) => Some(format!("panic at {}: {}", site, msg)),
+            };
+            if let Some(what) = bad {
+                rep.violation(&format!("C03/wrong-displacement/kind={}/form=SetVariableLoopTop", kindname), || what, || json!({"kind": "build_str", "source": src, "branch_addresses": sites, "displacement": d, "observed": o.to_json()}));
+            }
+        });
+    }
     let used = used_seqs.lock().unwrap().len();
     rep.guard(n_ok.load(Ordering::Relaxed) > 1000 && n_err.load(Ordering::Relaxed) > 1000, "need both reachable and unreachable targets");
     rep.guard(used == seqs.len(), "not every filler sequence was used");
@@ -582,6 +646,7 @@ pub fn run(tier: Tier) -> i32 {
         "exhaustive": true,
         "filler_sequences_used": used,
         "same_line_at_three_addresses_programs": n_reuse.load(Ordering::Relaxed),
+        "loop_macro_over_a_set_variable_programs": n_setloop.load(Ordering::Relaxed),
         "small_device_placements": DEV_BASES.iter().map(|(d, f, o)| format!("{} ({} words) from {}", d, f, o)).collect::<Vec<_>>(),
         "outcomes": {"ok": n_ok.load(Ordering::Relaxed), "err": n_err.load(Ordering::Relaxed)},
         "caps_hit": [],
